@@ -1,4 +1,4 @@
 SPECIFICATION GSpec
-CONSTANTS Sizes = {0, 4096, 8192}  Max = 4  ShrinkOnSettings = FALSE
+CONSTANTS Sizes = {0, 100, 4096, 8192}  Max = 4  ShrinkOnSettings = FALSE
 CONSTRAINT Emit
 CHECK_DEADLOCK FALSE
